@@ -1661,6 +1661,321 @@ def _outlives_the_call(repo: Repo, gfn: ast.AST, call: ast.Call, arg: ast.AST, h
     return None
 
 
+# ---------------------------------------------------------------------------------------------- round 7
+# Interface condition between the package and the libraries it uses: a class-level table of a *library* class (PyYAML's
+# implicit-resolver / constructor / representer tables, inherited by every loader subclass the package declares), a
+# module-level list of a library module (`sys.path`, `sys.meta_path`, codec search functions, audit hooks, fork handlers)
+# lives as long as the process.  The package owns none of them, so D2's scan of the package's own containers cannot see
+# them: the construct that feeds one is found by role - a registration-style method the package does not define, called on
+# an object that is (or derives from / is an attribute of) something imported from outside the package.
+
+# methods of library classes / modules that put an entry into a class-level or module-level table, by what the table is:
+# "append" - one more entry per call, whatever the arguments (never idempotent);
+# "keyed"  - the entry replaces the one stored under the same key (first argument): idempotent for a configuration-determined key
+LIBRARY_TABLE_METHODS = {
+    "add_implicit_resolver": "append",   # yaml: (tag, regexp) appended to the per-first-character lists of yaml_implicit_resolvers
+    "addaudithook": "append",            # sys
+    "register_at_fork": "append",        # os
+    "add_constructor": "keyed", "add_multi_constructor": "keyed", "add_representer": "keyed", "add_multi_representer": "keyed",
+    "add_path_resolver": "keyed",        # yaml
+    "add_type": "keyed", "addLevelName": "keyed", "register_error": "keyed", "register_dialect": "keyed",
+    "register_adapter": "keyed", "register_converter": "keyed", "register_namespace": "keyed",
+    "register_archive_format": "keyed", "register_unpack_format": "keyed",
+}
+LIBRARY_REGISTRAR_PREFIXES = ("add_", "register")
+LIST_GROWERS = {"append", "insert", "extend", "appendleft"}
+# self-cleaning library registries (weak): `<ABC subclass>.register(cls)` goes into a WeakSet
+WEAK_LIBRARY_REGISTRARS = {("abc", "register")}
+
+
+def _pkg_roots(repo: Repo) -> Set[str]:
+    return {d.split(".")[0] for d in repo.by_dotted}
+
+
+def _declared_in_package(repo: Repo, mod, cls: ast.ClassDef, member: str) -> bool:
+    """*member* is a method / class-level attribute the package itself gives the class (in a class body of its MRO, or by
+    a store `<x>.<member> = ..` in one of the MRO's modules): its growth is the package's own business (D1-D3)."""
+    mro = repo.mro(mod, cls)
+    for _m, c in mro:
+        for st in c.body:
+            if isinstance(st, FuncNode) and st.name == member:
+                return True
+            if isinstance(st, (ast.Assign, ast.AnnAssign)):
+                for t in (st.targets if isinstance(st, ast.Assign) else [st.target]):
+                    if isinstance(t, ast.Name) and t.id == member:
+                        return True
+    for m in {id(m): m for m, _c in mro}.values():
+        for n in ast.walk(m.tree):
+            if isinstance(n, ast.Attribute) and n.attr == member and isinstance(n.ctx, ast.Store):
+                return True
+    return False
+
+
+def _library_base(repo: Repo, mod, cls: ast.ClassDef) -> Optional[str]:
+    """Dotted name of a base class (anywhere in the package part of the MRO) that is imported from outside the package."""
+    roots = _pkg_roots(repo)
+    for m, c in repo.mro(mod, cls):
+        for b in c.bases:
+            if repo.resolve_name(m, b, c) is not None:
+                continue
+            d = dotted_name(b.value if isinstance(b, ast.Subscript) else b)
+            if d is None:
+                continue
+            head, _, rest = d.partition(".")
+            target = m.imports.get(head)
+            if target and target.split(".")[0] not in roots:
+                return target + ("." + rest if rest else "")
+    return None
+
+
+def _library_owner(repo: Repo, mod, f: Optional[ast.AST], e: ast.AST, member: str, depth: int = 0) -> Optional[Tuple[str, str]]:
+    """What the receiver expression *e* (evaluated in function *f* of *mod*, None = at module level) denotes, as far as
+    the member *member* looked up on it is concerned:
+    ("library", text)  something imported from outside the package (a library module, class or module-level object),
+                       or a class of the package that inherits *member* from a library base class - a process-lifetime
+                       object whose tables the package does not own;
+    ("instance", text) an object made by calling such a class (class-level tables are reachable through it as well);
+    None               anything else (locals, parameters, objects and classes of the package that define *member*)."""
+    from ..engine import assigned_value
+
+    if depth > 5:
+        return None
+    roots = _pkg_roots(repo)
+
+    def of_class(m, c: ast.ClassDef) -> Optional[Tuple[str, str]]:
+        if _declared_in_package(repo, m, c, member):
+            return None
+        base = _library_base(repo, m, c)
+        if base is None or (base.split(".")[0], member) in WEAK_LIBRARY_REGISTRARS:
+            return None
+        return "library", f"the class {c.name}, which inherits `{member}` from the library class {base}"
+
+    own_cls = enclosing_class(f) if f is not None else None
+    if isinstance(e, ast.Call):
+        if isinstance(e.func, ast.Name) and e.func.id == "type" and len(e.args) == 1 and isinstance(e.args[0], ast.Name) and e.args[0].id == "self" and own_cls is not None:
+            return of_class(mod, own_cls)
+        made_from = _library_owner(repo, mod, f, e.func, member, depth + 1)
+        if made_from is not None and made_from[0] == "library":
+            return "instance", "an instance of " + made_from[1]
+        return None
+    if isinstance(e, ast.Attribute) and e.attr == "__class__" and isinstance(e.value, ast.Name) and e.value.id == "self" and own_cls is not None:
+        return of_class(mod, own_cls)
+    d = dotted_name(e)
+    if d is None:
+        return None
+    head, _, rest = d.partition(".")
+    if isinstance(f, FuncNode):
+        a = f.args
+        params = {p.arg for p in a.posonlyargs + a.args + a.kwonlyargs} | ({a.vararg.arg} if a.vararg else set()) | ({a.kwarg.arg} if a.kwarg else set())
+        if head in params and not any(isinstance(x, ast.Name) and x.id == head and isinstance(x.ctx, ast.Store) for x in walk_no_nested(f)):
+            deco = {dotted_name(x) for x in f.decorator_list}
+            if not rest and own_cls is not None and "classmethod" in deco and (a.posonlyargs + a.args) and (a.posonlyargs + a.args)[0].arg == head:
+                return of_class(mod, own_cls)
+            return None
+        if head in _local_names(f) or head in params:
+            if rest:
+                return None  # an attribute of a local object
+            for v in assigned_value(f, head):
+                if isinstance(v, (ast.Name, ast.Attribute, ast.Call)) and not (isinstance(v, ast.Name) and v.id == head):
+                    got = _library_owner(repo, mod, f, v, member, depth + 1)
+                    if got is not None:
+                        return got
+            return None
+        # a name of an enclosing function
+        outer = enclosing_function(f)
+        if outer is not None and head in _local_names(outer):
+            return _library_owner(repo, mod, outer, e, member, depth + 1)
+    if head in mod.imports:
+        target = mod.imports[head] + ("." + rest if rest else "")
+        if target.split(".")[0] in roots:
+            r = repo.resolve_dotted(target)
+            if r is not None and isinstance(r[1], ast.ClassDef):
+                return of_class(r[0], r[1])
+            return None
+        return "library", f"`{target}` (imported from outside the package)"
+    node = mod.defs.get(d)
+    if isinstance(node, ast.ClassDef):
+        return of_class(mod, node)
+    if not rest:
+        for st in mod.tree.body:  # a module-level alias: `_LOADER = yaml.SafeLoader`
+            if isinstance(st, (ast.Assign, ast.AnnAssign)) and getattr(st, "value", None) is not None:
+                tg = st.targets[0] if isinstance(st, ast.Assign) else st.target
+                if isinstance(tg, ast.Name) and tg.id == head and isinstance(st.value, (ast.Name, ast.Attribute)):
+                    return _library_owner(repo, mod, None, st.value, member, depth + 1)
+    return None
+
+
+def _library_table(repo: Repo, mod, f: ast.AST, e: ast.AST, depth: int = 0) -> Optional[str]:
+    """Text naming the table when the container expression *e* denotes an attribute (or a bucket of an attribute) of a
+    library object / of a package class that inherits the attribute from a library class; None otherwise."""
+    from ..engine import assigned_value
+
+    if depth > 5:
+        return None
+    if isinstance(e, ast.Subscript):
+        return _library_table(repo, mod, f, e.value, depth + 1)
+    if isinstance(e, ast.Call):
+        if isinstance(e.func, ast.Attribute) and e.func.attr in ("setdefault", "get", "__getitem__"):
+            return _library_table(repo, mod, f, e.func.value, depth + 1)
+        if isinstance(e.func, ast.Name) and e.func.id == "getattr" and len(e.args) >= 2 and isinstance(e.args[1], ast.Constant) and isinstance(e.args[1].value, str):
+            owner = _library_owner(repo, mod, f, e.args[0], e.args[1].value, depth + 1)
+            return f"`{e.args[1].value}` of {owner[1]}" if owner is not None and owner[0] == "library" else None
+        return None
+    if isinstance(e, ast.Attribute):
+        owner = _library_owner(repo, mod, f, e.value, e.attr, depth + 1)
+        if owner is not None and owner[0] == "library":
+            return f"`{e.attr}` of {owner[1]}"
+        return _library_table(repo, mod, f, e.value, depth + 1)
+    if isinstance(e, ast.Name) and isinstance(f, FuncNode) and e.id in _local_names(f):
+        for v in assigned_value(f, e.id):
+            if isinstance(v, (ast.Attribute, ast.Subscript, ast.Call)):
+                got = _library_table(repo, mod, f, v, depth + 1)
+                if got is not None:
+                    return got
+    return None
+
+
+def _config_determined_key(repo: Repo, mod, f: ast.AST, e: Optional[ast.AST], depth: int = 0) -> bool:
+    """The key expression *e* is the same object / text every time the line runs: a literal, literal building, a
+    module-level name (a constant, a class, a function, an import)."""
+    from ..engine import assigned_value
+
+    if e is None or depth > 4:
+        return False
+    if isinstance(e, ast.Constant):
+        return True
+    if isinstance(e, (ast.Tuple, ast.List)):
+        return all(_config_determined_key(repo, mod, f, x, depth + 1) for x in e.elts)
+    if isinstance(e, (ast.Name, ast.Attribute)):
+        d = dotted_name(e)
+        if d is None:
+            return False
+        head = d.split(".")[0]
+        if isinstance(f, FuncNode):
+            if head in _param_names(f) or (f.args.vararg and f.args.vararg.arg == head) or (f.args.kwarg and f.args.kwarg.arg == head):
+                return False
+            if head in _local_names(f):
+                vals = assigned_value(f, head)
+                return "." not in d and bool(vals) and all(_config_determined_key(repo, mod, f, v, depth + 1) for v in vals) and sum(
+                    1 for x in walk_no_nested(f) if isinstance(x, ast.Name) and x.id == head and isinstance(x.ctx, ast.Store)) == len(vals)
+        return True  # module-level name / import
+    return not _run_time_parts_of_text(repo, mod, f, e)
+
+
+def _once_per_process(mod, f: ast.AST, st: ast.AST) -> Optional[str]:
+    """Why the statement *st* of *f* runs at most once per process although *f* is called again and again (None: it does
+    not): a class-level latch (`_under_process_latch`), a module-level flag tested false on the way in and set (under
+    `global`) on every way out, or *f* being a parameterless function memoised with `functools.cache`."""
+    from ..cfg import CFG, edges_guaranteeing
+
+    if not isinstance(f, FuncNode):
+        return None
+    a = f.args
+    if not (a.posonlyargs or a.args or a.kwonlyargs or a.vararg or a.kwarg):
+        for dec in f.decorator_list:
+            dn = dotted_name(dec.func if isinstance(dec, ast.Call) else dec) or ""
+            head, _, rest = dn.partition(".")
+            if head in mod.imports:
+                dn = mod.imports[head] + ("." + rest if rest else "")
+            if dn.split(".")[-1] in ("cache", "lru_cache"):
+                return f"the parameterless function is memoised (@{dn}): its body runs once"
+    if _under_process_latch(f, st):
+        return "guarded by a class-level once-per-process latch"
+    flags = {nm for n in walk_no_nested(f) if isinstance(n, ast.Global) for nm in n.names}
+    if not flags:
+        return None
+    g = CFG(f, may_raise=lambda p: set())
+    ids = g.nodes_for(st)
+    if not ids:
+        return None
+    for flag in sorted(flags):
+        setters = [n.id for n in g.nodes if n.kind == "stmt" and isinstance(n.ast, ast.Assign) and _const_truth(n.ast.value) is True
+                   and any(isinstance(t, ast.Name) and t.id == flag for t in n.ast.targets)]
+        if not setters:
+            continue
+
+        def atom(e: ast.AST, flag=flag) -> Optional[bool]:
+            return False if isinstance(e, ast.Name) and e.id == flag else None
+
+        for n in g.nodes:
+            if n.kind in ("if", "while") and n.part is not None:
+                for lab in edges_guaranteeing(n.part, atom):
+                    if all(g.dominated_by_edge(t, n.id, lab) for t in ids):
+                        starts = [i for i in ids if i not in setters]
+                        if g.ret_exit not in g.reach(starts, blocked=set(setters)):
+                            return f"guarded by the module-level latch `{flag}` (tested false on the way in, set on every way out)"
+    return None
+
+
+def _library_tables(repo: Repo, R: Report, r_lib) -> None:
+    """C18-D2-library-tables-not-fed-per-run (see the rule text)."""
+    n_sites = 0
+    n_bad = 0
+    for mod, qn, f in repo.all_functions():
+        if mod.rel.startswith("semantiva/examples/"):
+            continue
+        for c in calls_in(f):
+            if not isinstance(c.func, ast.Attribute):
+                continue
+            meth = c.func.attr
+            is_reg = meth in LIBRARY_TABLE_METHODS or meth.startswith(LIBRARY_REGISTRAR_PREFIXES)
+            is_grow = meth in LIST_GROWERS
+            if not (is_reg or is_grow):
+                continue
+            d = _resolved_call_name(mod, c)
+            if d in REGISTRARS or d.endswith(".finalize") and "weakref" in d:
+                continue  # reported by C18-D2-global-accumulators
+            if is_reg:
+                try:
+                    if repo.resolve_call(mod, c):
+                        continue  # a function of the package: what it grows is visible to D2 / D3
+                except Exception:
+                    pass
+                owner = _library_owner(repo, mod, f, c.func.value, meth)
+                if owner is None:
+                    continue
+                kind, otext = owner
+                if kind == "instance" and meth not in LIBRARY_TABLE_METHODS:
+                    continue  # `parser.add_argument(..)`: the table lives in the object made for this call
+                how = LIBRARY_TABLE_METHODS.get(meth, "unknown")
+                what = f"`{meth}` is called on {otext}"
+            else:
+                table = _library_table(repo, mod, f, c.func.value)
+                if table is None:
+                    continue
+                how = "append"
+                what = f"`{meth}` grows {table}"
+            n_sites += 1
+            repo.consulted.add(mod.rel)
+            st = stmt_of(c)
+            per_run, via = _runs_per_job(repo, f, c)
+            if not per_run:
+                R.ok(r_lib, mod.rel, qn, norm(c)[:80], f"{what}; not reachable from a per-run / per-job / per-launch entry point (set-up code)", c.lineno)
+                continue
+            once = _once_per_process(mod, f, st)
+            if once:
+                R.ok(r_lib, mod.rel, qn, norm(c)[:80], f"{what} on a per-run path, but {once}", c.lineno)
+                continue
+            if how == "keyed":
+                key = c.args[0] if c.args else (c.keywords[0].value if c.keywords else None)
+                if _config_determined_key(repo, mod, f, key):
+                    R.ok(r_lib, mod.rel, qn, norm(c)[:80], f"{what} on a per-run path with the configuration-determined key `{norm(key)[:40]}`: the entry replaces itself (idempotent)", c.lineno)
+                    continue
+            n_bad += 1
+            effect = {
+                "append": "every call puts one more entry into it, whatever the arguments (registering the same thing twice is not idempotent)",
+                "keyed": "the entry is stored under a key computed at run time, so every distinct key adds an entry that is never removed",
+                "unknown": "a registration into a library-owned table that the package neither owns nor ever clears; nothing shows it to be idempotent",
+            }[how]
+            R.violation(r_lib, mod.rel, qn, norm(c)[:90],
+                        f"{what} on a path that runs for every run / job / launch{' (' + via + ')' if via else ''}: that table belongs to the library, is shared by every user of the class / module "
+                        f"and lives as long as the process - {effect}. The process-wide table (and the population of gc-tracked objects) grows with the number of runs, and whatever consults the "
+                        "table (every scalar parsed, every import, every lookup) walks all accumulated entries, so the cost of run N depends on N. Register once - at import time or under a "
+                        "once-per-process latch", c.lineno)
+    R.ok(r_lib, "semantiva", "<package>", f"registrations into library-owned class-level / module-level tables: {n_sites} site(s), {n_bad} fed per run", "none fed per run")
+    R.extra["library_table_sites"] = n_sites
+
+
 def run(repo: Repo, R: Report) -> None:
     R.assume(
         "garbage collection reclaims unreferenced classes and objects (cycles included)",
@@ -1861,6 +2176,13 @@ def run(repo: Repo, R: Report) -> None:
                    "enables the installation - is made once per process or per service; a class-level once-per-process latch counts, an existence test against run-time state such as the current "
                    "`sys.stdout` object does not)", 2)
     _handler_installs(repo, R, r_log)
+    # class-level / module-level tables of the libraries the package uses are process-wide registries the package does not own
+    r_lib = R.rule("C18-D2-library-tables-not-fed-per-run", "a class-level table of a library class (PyYAML's resolver / constructor / representer tables, which every loader subclass declared in the "
+                   "package shares or copies once) or a module-level list of a library module (`sys.path`, import / audit / fork hooks) lives as long as the process and is never cleared by the "
+                   "package: a call that registers into one - a registration method the package does not define (`add_*` / `register*`) called on something imported from outside the package, on a "
+                   "package class that inherits the method from a library base, or an in-place append to an attribute of such an object - is not evaluated on a per-run / per-job / per-launch path, "
+                   "unless it is latched once per process or stores under a configuration-determined key of a keyed table (idempotent)", 1)
+    _library_tables(repo, R, r_lib)
 
     # ------------------------------------------------------------------ D3
     r_obj = R.rule("C18-D3-long-lived-objects", "orchestrators, Pipeline, transports, drivers, executors and emitters do not grow containers per run (beyond the frozen, bounded ones); every transport.publish has a subscriber that can consume it", 4)
